@@ -487,3 +487,42 @@ def import_length_predictor_agreement(ctx, rule, floor=3):
         if r == "E3" and "length helpers" in w:
             ctx.floor(rule, "address length predictors (imported from C14 E3): " + w, e, f)
     ctx.floor(rule, "length-predictor agreement obligations", floor, n)
+
+
+def flat_err_only(prog, fb, blk):
+    """In a flat body: every path from `blk` ends with the *root* function returning Err. Decided modularly, because the splice re-joins a
+    callee's Ok and Err returns before the caller's `?`: (1) inside the function the block came from, every path from it returns Err;
+    (2) at the call site of that function the result is `?`-propagated (the Break edge returns Err in the caller) — recursively up to the root."""
+    if not getattr(fb, "is_flat", False) or fb.callsite[blk] is None:
+        src = prog.body(fb.origin[blk]) if getattr(fb, "is_flat", False) else fb
+        ob = fb.origin_blk[blk] if getattr(fb, "is_flat", False) else blk
+        return err_return_reachable_only(src, ob)
+    src = prog.body(fb.origin[blk])
+    if not err_return_reachable_only(src, fb.origin_blk[blk]):
+        return False
+    cs = fb.callsite[blk]
+    caller = prog.body(fb.origin[cs])
+    cblk = fb.origin_blk[cs]
+    t = caller.term(cblk)
+    if not t or t["k"] != "call":
+        return False
+    carriers, calls, sw = caller.slice_fwd([t["dest"][0]])
+    for l in carriers:
+        for g in gates_of_value(caller, l):
+            if g.kind in ("try", "result"):
+                ft = g.target_for(1)
+                # the failure edge in the caller, as a block of the flat body: same origin function instance as the call site
+                fidx = _flat_index(fb, cs, ft)
+                if fidx is not None and flat_err_only(prog, fb, fidx):
+                    return True
+    return False
+
+
+def _flat_index(fb, like_blk, orig_idx):
+    """flat block index of original block `orig_idx` in the same inlined instance as flat block `like_blk`"""
+    inst = fb.callsite[like_blk]
+    fn = fb.origin[like_blk]
+    for i in range(fb.n):
+        if fb.origin[i] == fn and fb.callsite[i] == inst and fb.origin_blk[i] == orig_idx:
+            return i
+    return None
